@@ -223,6 +223,18 @@ RunInter(ops, tab, cur, t1, t2, turn, gen, fuel, j, invs) ==
              r == Call(ops, tab, cur, IF who = 1 THEN t1 ELSE t2, gen, Inv(invs, j), NInv(invs))
          IN <<r.out>> \o RunInter(ops, tab, r.cur, IF who = 1 THEN r.t ELSE t1, IF who = 2 THEN r.t ELSE t2,
                                   3 - who, gen, fuel - 1, j + 1, invs)
+\* the first k calls of a traversal, whatever they answer (a stream that has ended is simply asked again)
+RECURSIVE RunN(_, _, _, _, _, _, _)
+RunN(ops, tab, cur, t, k, j, invs) ==
+    IF k = 0 THEN [outs |-> <<>>, cur |-> cur]
+    ELSE LET r == Call(ops, tab, cur, [c |-> t.c, st |-> "alive"], FALSE, Inv(invs, j), NInv(invs))
+             rest == RunN(ops, tab, r.cur, r.t, k - 1, j + 1, invs) IN
+         [outs |-> <<r.out>> \o rest.outs, cur |-> rest.cur]
+\* reset() of the stream of a composition (the composed stream itself, or the stream made from a composed pattern, which
+\* is a composed stream over the streams of its operands) restores EVERY operand stream to its start: afterwards it
+\* answers like a fresh one
+ResetAfter(law) == IF law = "reset1" THEN 1 ELSE 2
+AfterReset(ops, cur) == Cur0(ops)
 FUEL == 40
 EndO == Outc(EndV, <<>>)
 LazyExpected(ops, tab, law, gen, invs) ==
@@ -233,6 +245,10 @@ LazyExpected(ops, tab, law, gen, invs) ==
       [] law = "twice" -> r1.outs \o (IF r1.died THEN <<>> ELSE RunOne(ops, tab, r1.cur, Fresh0, gen, FUEL, n1 + 1, invs).outs)
                           \o <<EndO>>
       [] law = "inter" -> RunInter(ops, tab, Cur0(ops), Fresh0, Fresh0, 1, gen, 2 * FUEL, 1, invs)
+      [] law \in {"reset1", "reset2"} ->
+            LET k == ResetAfter(law)
+                before == RunN(ops, tab, Cur0(ops), Fresh0, k, 1, invs) IN
+            before.outs \o RunOne(ops, tab, AfterReset(ops, before.cur), Fresh0, gen, FUEL, k + 1, invs).outs \o <<EndO>>
 LazyWhy(ops, tab, law, gen, O, invs) ==
     IF ~LazyDefined(ops) THEN "lazy:undefined-kinds"
     ELSE IF Len(tab) # Prod(Dims(ops, NInv(invs)), 1) THEN "lazy:bad-table"
@@ -450,7 +466,9 @@ InvSeq == <<1, 2, 3, 2, 1, 3, 3, 1>>
 EndsSomewhere(v) == \E k \in 1..Len(v) : v[k].k \in LazyK /\ v[k].n < 99
 WithSid(v, sh) == [k \in 1..Len(v) |-> [k |-> v[k].k, n |-> v[k].n, rd |-> v[k].rd, sid |-> IF sh[2] = k THEN sh[1] ELSE k]]
 Shares(v) == {<<0, 0>>} \cup {<<j, k>> \in (1..Len(v)) \X (1..Len(v)) : j < k /\ v[j].k \in StatefulK /\ v[j] = v[k]}
-LawModes == {<<"once", FALSE>>, <<"once", TRUE>>, <<"tail", TRUE>>, <<"twice", TRUE>>, <<"inter", FALSE>>, <<"inter", TRUE>>}
+LawModes == {<<"once", FALSE>>, <<"once", TRUE>>, <<"tail", TRUE>>, <<"twice", TRUE>>, <<"inter", FALSE>>, <<"inter", TRUE>>,
+             <<"reset1", FALSE>>, <<"reset2", FALSE>>}
+ResetLaws == {"reset1", "reset2"}
 PickLazy == /\ phase = "start"
             /\ \E m \in 1..3 : \E v \in [1..m -> LazyOpt] : \E sh \in Shares(v), lm \in LawModes, xv \in BOOLEAN :
                  /\ LazyDefined(WithSid(v, sh)) /\ (xv => m <= 2)       \* a raising kernel: arity does not matter
@@ -554,7 +572,7 @@ LazyAccepts == phase = "lazy" =>
 \* every traversal reports its end exactly once, last
 LazyEnds == phase = "lazy" =>
     /\ LExp[Len(LExp)].v.x = 2
-    /\ Cardinality({i \in 1..Len(LExp) : LExp[i].v.x = 2}) = (IF args[2] = "inter" THEN 2 ELSE 1)
+    /\ (args[2] \notin ResetLaws => Cardinality({i \in 1..Len(LExp) : LExp[i].v.x = 2}) = (IF args[2] = "inter" THEN 2 ELSE 1))
 \* one traversal of distinct operands is the shortest-stream law of the eager matcher above
 LazyIsShort == (phase = "lazy" /\ args[2] = "once" /\ ~args[4] /\ NoShare(LOps) /\ NoFn(LOps)) =>
     SeqOutEq(LExp, ShortSeq(LOps, LazyTab(LOps, FALSE)) \o <<EndO>>)
@@ -568,7 +586,12 @@ LazyPatternsRestart ==
         /\ (args[2] = "tail" => SeqOutEq(LExp, once \o <<Outc(MarkV(0), <<>>), EndO>>))
 \* a stateful operand is never rewound nor read twice: the indices used at its position strictly increase
 LeafIx(e, k) == IF e.c = <<>> THEN e.v.s[k] ELSE e.c[1].s[k]
-LazyConserves == (phase = "lazy" /\ ~args[4]) =>
+\* after reset() a composed stream answers like a fresh one: every operand stream is back at its start
+LazyResetRestores ==
+    (phase = "lazy" /\ ~args[4] /\ args[2] \in ResetLaws /\ LInv = <<0>>) =>
+        LET k == ResetAfter(args[2]) IN
+        SeqOutEq(SubSeq(LExp, k + 1, Len(LExp)), LazyExpected(LOps, LazyTab(LOps, FALSE), "once", FALSE, LInv))
+LazyConserves == (phase = "lazy" /\ ~args[4] /\ args[2] \notin ResetLaws) =>
     \A k \in {j \in 1..Len(LOps) : LOps[j].k \in LazyK /\ ~PerTraversal(LOps, j) /\ ~Reads(LOps, j)} :
         LET vals == SelectSeq(LExp, LAMBDA e : e.v.x \in {0, 1}) IN
         \A i \in 1..(Len(vals) - 1) : LeafIx(vals[i], k) < LeafIx(vals[i + 1], k)
